@@ -68,7 +68,7 @@ fn build_groups<C: FunctionalContribution, const K: usize>(c: &C, t: f64, sample
     for (r, mem) in raw {
         let mut leaks: Vec<usize> = Vec::new();
         let mut leak_values = Vec::new();
-        let mut note = |other: &Prog, leaks: &mut Vec<usize>, lv: &mut Vec<(f64, f64)>| {
+        let note = |other: &Prog, leaks: &mut Vec<usize>, lv: &mut Vec<(f64, f64)>| {
             for i in compare(&r, other).leaks {
                 if !leaks.contains(&i) {
                     leaks.push(i);
